@@ -253,6 +253,16 @@ func (r *Runtime) Events() []Event {
 	return out
 }
 
+func (r *Runtime) CountsCopy() map[string]int {
+	r.mu.Lock()
+	defer r.mu.Unlock()
+	out := map[string]int{}
+	for k, v := range r.counts {
+		out[k] = v
+	}
+	return out
+}
+
 func (r *Runtime) Len() int {
 	r.mu.Lock()
 	defer r.mu.Unlock()
